@@ -84,7 +84,8 @@ impl<'a, T, L: MutLayout + Send + Sync> SplitIterator for InnerIterMut<'a, T, L>
         // The left/right splits use the same storage. We rely on the left/right
         // layouts being logically disjoint to ensure we don't create multiple
         // mutable references to the same elements.
-        let (left_data, right_data) = self.data.split_mut(0..len, 0..len);
+        // Safety: The left and right iterators visit disjoint sets of offsets.
+        let (left_data, right_data) = unsafe { self.data.split_mut(0..len, 0..len) };
 
         let left = Self {
             base: left_base,
@@ -250,7 +251,8 @@ impl<'a, T> SplitIterator for IterMut<'a, T> {
     fn split_at(self, index: usize) -> (Self, Self) {
         let (left_offsets, right_offsets) = self.offsets.split_at(index);
         let len = self.data.len();
-        let (left_data, right_data) = self.data.split_mut(0..len, 0..len);
+        // Safety: The left and right iterators visit disjoint sets of offsets.
+        let (left_data, right_data) = unsafe { self.data.split_mut(0..len, 0..len) };
         let left = Self {
             offsets: left_offsets,
             data: left_data,
@@ -314,7 +316,8 @@ impl<'a, T> SplitIterator for LanesMut<'a, T> {
 
         // Safety note: `split_mut` relies on the caller to ensure that
         // associated layouts do not overlap.
-        let (left_data, right_data) = self.data.split_mut(0..len, 0..len);
+        // Safety: The left and right iterators visit disjoint sets of offsets.
+        let (left_data, right_data) = unsafe { self.data.split_mut(0..len, 0..len) };
 
         let left = Self {
             data: left_data,
